@@ -1786,3 +1786,516 @@ def run_pathtext(ctx, prop, nmax, kmax):
      bounds="every (path, s) of valid UTF-8 text with |path| <= 4 and |s| <= 3 Unicode scalars (1-4 byte encodings)")
 def c15_pathtext(ctx, prop):
     return run_pathtext(ctx, prop, 4, 3)
+
+
+# ------------------------------------------------------------------------------------------------
+# Text-level path jobs: Path/PathBuf are symbolic char sequences, std::path is lib/mirsym/textpath.py
+# ------------------------------------------------------------------------------------------------
+from .mirsym import textpath as TP  # noqa: E402
+
+
+def _find_free_fn(mir, callee, m):
+    """generic rule: a call of a free function of sys::fs::path (or a PathExt method, which delegates to
+    it) is inlined from its MIR body when the name identifies exactly one function in the dump"""
+    name = m.group(1)
+    hits = mir.find(r"^fn (?:sys::fs::path::)?%s\(" % re.escape(name))
+    if len(hits) != 1:
+        hits = mir.find(r"^fn sys::fs::path::<impl at src/sys/fs/path\.rs[^>]*>::%s\(" % re.escape(name))
+    if len(hits) != 1:
+        raise Unsupported("callee `%s` does not identify one MIR body (%d candidates)" % (callee, len(hits)))
+    return mir.function_at(hits[0])
+
+
+GENERIC_PATH_INLINE = [
+    (rx(r"^(?:sys::fs::path::)?(clean|concat|dir|base|ext|first|name|has|has_prefix|has_suffix|last|mash|relative|trim_ext|trim_first|trim_last|trim_prefix|trim_protocol|trim_suffix|is_empty)(?:::<.*>)?$"),
+     _find_free_fn),
+    (rx(r"^<(?:Path|PathBuf) as (?:sys::fs::path::)?PathExt>::(\w+)(?:::<.*>)?$"), _find_free_fn),
+]
+
+
+def text_executor(ctx, solver, extra_inline=(), **kw):
+    models = TP.make_textpath_models() + make_pathtext_models()
+    ex = new_executor(ctx, solver, models, list(extra_inline) + RIVIA_INLINE + PATHTEXT_INLINE + GENERIC_PATH_INLINE, **kw)
+    ex.enum_hook = TP.text_enum_hook
+    return ex
+
+
+def text_eq(a, b):
+    if len(a) != len(b):
+        return B(False)
+    return M.chars_eq(a, b) if a else B(True)
+
+
+def py_go_clean(s):
+    class D:
+        def decide(self, st, c):
+            assert c.concrete
+            return c.v
+    return "".join(chr(c.v) for c in TP.go_clean_text(D(), None, [BV(32, False, ord(x)) for x in s]))
+
+
+def run_clean_text(ctx, prop, nmax, nmin=0, alphabet=None, tag="c14_clean_text"):
+    t0 = time.time()
+    solver = ctx.solver(tag)
+    ex = text_executor(ctx, solver, max_block_visits=4 * nmax + 24)
+    fn = ctx.mir.get(r"^fn sys::fs::path::clean\(_1: T\)")
+    ob = Obl()
+    unit = dict(status="pass", failures=[])
+    for n in range(nmin, nmax + 1):
+        chars, cons = sym_text(solver, "ct%d" % n, n)
+        if alphabet:
+            cons = ["(or %s)" % " ".join("(= %s (_ bv%d 32))" % (c.v, ord(k)) for k in alphabet) for c in chars]
+        g = {"s": chars}
+
+        def on_path(st, n=n, chars=chars, g=g):
+            cf = lambda extra: text_model(ex, st, g, extra)
+            if st.panic or st.bound_hit:
+                ob.total += 1
+                ob.failures.append(dict(kind="panic" if st.panic else "bound", where="sys::fs::path::clean", cex=cf([]),
+                                        desc="clean panics/loops: %s" % (st.panic or st.bound_hit)))
+                return
+            if st.meta.get("stage", 1) == 1:
+                res = st.retval
+                if not isinstance(res, TP.PathBufT):
+                    raise Unsupported("clean returned %r" % (res,))
+                want = TP.go_clean_text(ex, st, chars)
+                ob.prove(ex, st, "C14: clean(s) is exactly Go's path.Clean(s) as a string (n=%d)" % n, text_eq(res.chars, want), cf)
+                ob.prove(ex, st, "C14: result is never empty", B(len(res.chars) > 0), cf)
+                if chars and res.chars:
+                    from .mirsym.values import b_eq
+                    ob.prove(ex, st, "C14: absoluteness preserved", b_eq(TP.is_ch(chars[0], TP.SLASH), TP.is_ch(res.chars[0], TP.SLASH)), cf)
+                if len(ob.samples) < 3 and n == nmax:
+                    m = cf([])
+                    if m:
+                        ob.samples.append(dict(obligation="clean(s) == GoClean(s)", s=m["s"], expected=py_go_clean(m["s"])))
+                st2 = ex.start(fn, [BoxRef(M.SStr(res.chars))])
+                st2.pc = list(st.pc)
+                st2.meta = dict(stage=2, first=list(res.chars))
+                return [st2]
+            ob.prove(ex, st, "C14: clean is idempotent (n=%d)" % n, text_eq(st.retval.chars, st.meta["first"]), cf)
+
+        st0 = ex.start(fn, [BoxRef(M.SStr(chars))])
+        st0.pc = cons
+        ex.explore(st0, on_path)
+    seen = set()
+    for f in ob.failures:
+        if f["kind"] == "bound" or f["cex"] is None:
+            unit["status"], unit["why"] = "inconclusive", f["desc"]
+            continue
+        s = f["cex"]["s"]
+        if s in seen or len(seen) >= 3:
+            continue
+        seen.add(s)
+        exp = py_go_clean(s)
+        src = '''use rivia::prelude::*;
+#[test]
+fn replay_clean_text() {
+    // %s
+    let got = sys::clean(%s);
+    assert_eq!(got.to_str().unwrap(), %s, "C14: clean differs from Go's path.Clean");
+    assert_eq!(sys::clean(&got).to_str().unwrap(), got.to_str().unwrap(), "C14: clean is not idempotent");
+}
+''' % (f["desc"], rs_str(s), rs_str(exp))
+        r = native_test(src, ctx.logdir, "c14t_%d" % len(seen))
+        reproduced = r["ran"] and r["failed"] > 0
+        rec = dict(kind=f["kind"], desc='"%s" s=%r expected=%r' % (f["desc"], s, exp), where="sys::fs::path::clean",
+                   reproduced=reproduced, replay_outcome=r["out"][-400:])
+        if reproduced:
+            rec["replay"] = save_replay(prop, tag, src, f["desc"], dict(failed=r["failed"]))
+        unit["failures"].append(rec)
+        unit["status"] = "violation"
+    return finish(unit, ex, solver, ob, t0, dict(models_used="text-level std::path model (lib/mirsym/textpath.py): tokeniser, PathBuf push/pop, component equality over symbolic chars"))
+
+
+@job("c14_clean_text_n5", ["C14", "C12"], "quick",
+     functions=["sys::fs::path::clean (real MIR) on text", "OptionExt::has, sys::is_empty (real MIR, inlined)"],
+     bounds="every string of 0..=5 Unicode scalars (any chars, incl. '/', '.', multi-byte); string-level equality with Go's path.Clean")
+def c14_text_quick(ctx, prop):
+    return run_clean_text(ctx, prop, 5)
+
+
+def toks_eq(a, b):
+    if len(a) != len(b):
+        return B(False)
+    return b_and(*[TP.tcomp_eq(x, y) for x, y in zip(a, b)]) if a else B(True)
+
+
+def comps_of(ex, st, chars):
+    return [t[0] for t in TP.tokenize(ex, st, chars)]
+
+
+def result_text(v):
+    """Ok(String|PathBuf) / PathBuf / String -> ('ok'|'err', chars)"""
+    if isinstance(v, Adt) and v.ty == "Result":
+        if v.variant == 1:
+            return "err", None
+        v = v.fields[0]
+    if isinstance(v, (TP.PathBufT, M.SStr)):
+        return "ok", v.chars
+    raise Unsupported("unexpected result %r" % (v,))
+
+
+# name -> (header regex, number of text args, oracle(ex, st, args) -> list of (description, B formula))
+def _o_dir(ex, st, a, res):
+    kind, txt = res
+    c = comps_of(ex, st, a[0])
+    has_parent = bool(c) and c[-1].kind != ROOT
+    if not has_parent:
+        return [("C15: dir(p) fails exactly when p has no parent", B(kind == "err"))]
+    if kind != "ok":
+        return [("C15: dir(p) fails although p has a parent", B(False))]
+    return [("C15: dir(p) is p without its last component", toks_eq(comps_of(ex, st, txt), c[:-1]))]
+
+
+def _o_lastlike(which):
+    def f(ex, st, a, res):
+        kind, txt = res
+        c = comps_of(ex, st, a[0])
+        if not c:
+            return [("C15: %s(p) fails exactly for a path without components" % which, B(kind == "err"))]
+        if kind != "ok":
+            return [("C15: %s(p) fails although p has components" % which, B(False))]
+        want = c[0] if which == "first" else c[-1]
+        return [("C15: %s(p) is the text of the %s component" % (which, "first" if which == "first" else "last"),
+                 text_eq(txt, want.text))]
+    return f
+
+
+def _o_trim(which):
+    def f(ex, st, a, res):
+        kind, txt = res
+        c = comps_of(ex, st, a[0])
+        want = c[1:] if which == "trim_first" else c[:-1]
+        return [("C15: %s(p) removes exactly one component" % which, toks_eq(comps_of(ex, st, txt), want))]
+    return f
+
+
+def _o_mash(ex, st, a, res):
+    kind, txt = res
+    d, p = a
+    i = 0
+    while i < len(p) and ex.decide(st, TP.is_ch(p[i], TP.SLASH)):
+        i += 1
+    # '.' components carry no information and the statement does not say which reading applies to a
+    # leading "./" of p, so the comparison ignores CurDir components on both sides
+    nocur = lambda cs: [c for c in cs if c.kind != CUR]
+    want = nocur(comps_of(ex, st, d)) + nocur(comps_of(ex, st, p[i:]))
+    obl = [("C15: components of mash(d, p) are those of d followed by those of p without its leading separators",
+            toks_eq(nocur(comps_of(ex, st, txt)), want))]
+    if txt and len(comps_of(ex, st, txt)) > 0 and not (len(txt) == 1):
+        obl.append(("C15: mash(d, p) has no trailing separator", b_not(TP.is_ch(txt[-1], TP.SLASH))))
+    return obl
+
+
+def _o_ext(ex, st, a, res):
+    kind, txt = res
+    c = comps_of(ex, st, a[0])
+    e = None
+    if c and c[-1].kind == NORMAL:
+        name = c[-1].text
+        for i in range(len(name) - 1, 0, -1):
+            if ex.decide(st, TP.is_ch(name[i], TP.DOT)):
+                e = name[i + 1:]
+                break
+        else:
+            e = None
+    if e is None:
+        return [("C15: ext(p) fails exactly when the last component has no extension", B(kind == "err"))]
+    if kind != "ok":
+        return [("C15: ext(p) fails although the last component has an extension", B(False))]
+    return [("C15: ext(p) is the text after the last '.' of the last component", text_eq(txt, e))]
+
+
+TEXT_FUNCS = {
+    "dir": (r"^fn (sys::fs::path::)?dir\(_1: T\)", 1, _o_dir, 'sys::dir({0}).map(|x| x.to_str().unwrap().to_string()).ok()'),
+    "base": (r"^fn (sys::fs::path::)?base\(_1: T\)", 1, _o_lastlike("base"), 'sys::base({0}).ok()'),
+    "last": (r"^fn (sys::fs::path::)?last\(_1: T\)", 1, _o_lastlike("last"), 'sys::last({0}).ok()'),
+    "first": (r"^fn (sys::fs::path::)?first\(_1: T\)", 1, _o_lastlike("first"), 'sys::first({0}).ok()'),
+    "trim_first": (r"^fn (sys::fs::path::)?trim_first\(_1: T\)", 1, _o_trim("trim_first"), 'Some(sys::trim_first({0}).to_str().unwrap().to_string())'),
+    "trim_last": (r"^fn (sys::fs::path::)?trim_last\(_1: T\)", 1, _o_trim("trim_last"), 'Some(sys::trim_last({0}).to_str().unwrap().to_string())'),
+    "mash": (r"^fn (sys::fs::path::)?mash\(_1: T, _2: U\)", 2, _o_mash, 'Some(sys::mash({0}, {1}).to_str().unwrap().to_string())'),
+    "ext": (r"^fn (sys::fs::path::)?ext\(_1: T\)", 1, _o_ext, 'sys::ext({0}).ok()'),
+}
+
+COMPONENT_INLINE = [
+    (rx(r"^<Components<'_> as (?:core::iter::)?IteratorExt>::drop$"),
+     lambda mir, c, m: mir.get(r"^fn core::iter::<impl at src/core/iter\.rs[^>]*>::drop\(")),
+    (rx(r"^<Components<'_> as (?:core::iter::)?IteratorExt>::first_result$"),
+     lambda mir, c, m: mir.get(r"^fn core::iter::<impl at src/core/iter\.rs[^>]*>::first_result\(")),
+    (rx(r"^<Components<'_> as (?:core::iter::)?IteratorExt>::last_result$"),
+     lambda mir, c, m: mir.get(r"^fn core::iter::<impl at src/core/iter\.rs[^>]*>::last_result\(")),
+    (rx(r"^<Component<'_> as (?:core::string::)?ToStringExt>::to_string$"),
+     lambda mir, c, m: mir.get(r"^fn core::string::<impl at src/core/string\.rs[^>]*>::to_string\(_1: &Component<'_>\)")),
+    (rx(r"^<OsStr as (?:core::string::)?ToStringExt>::to_string$"),
+     lambda mir, c, m: mir.get(r"^fn core::string::<impl at src/core/string\.rs[^>]*>::to_string\(_1: &OsStr\)")),
+    (rx(r"^(?:sys::fs::path::)?base::<.*>$"), lambda mir, c, m: mir.get(r"^fn (sys::fs::path::)?base\(_1: T\)")),
+    (rx(r"^(?:sys::fs::path::)?trim_prefix::<.*>$"), lambda mir, c, m: mir.get(r"^fn (sys::fs::path::)?trim_prefix\(_1: T, _2: U\)")),
+]
+
+
+def py_comps(s):
+    rooted = s.startswith("/")
+    out = (["/"] if rooted else [])
+    for i, seg in enumerate(s.split("/")):
+        if seg == "":
+            continue
+        if seg == ".":
+            if i == 0 and not rooted:
+                out.append(".")
+            continue
+        out.append(seg)
+    return out
+
+
+def run_text_funcs(ctx, prop, names, nmax, kmax, tag):
+    t0 = time.time()
+    solver = ctx.solver(tag)
+    ex = text_executor(ctx, solver, extra_inline=COMPONENT_INLINE, max_block_visits=4 * nmax + 24)
+    ob = Obl()
+    unit = dict(status="pass", failures=[])
+    for name in names:
+        hdr, nargs, oracle, rexpr = TEXT_FUNCS[name]
+        fn = ctx.mir.get(hdr)
+        shapes = [(n,) for n in range(0, nmax + 1)] if nargs == 1 else [(n, k) for n in range(0, nmax + 1) for k in range(0, kmax + 1)]
+        for shape in shapes:
+            texts, cons = [], []
+            for ai, n in enumerate(shape):
+                c, cc = sym_text(solver, "tf_%s_%s_%d" % (name, "_".join(map(str, shape)), ai), n)
+                texts.append(c)
+                cons += cc
+            g = {"a%d" % i: t for i, t in enumerate(texts)}
+
+            def on_path(st, name=name, texts=texts, g=g, oracle=oracle, shape=shape):
+                cf = lambda extra: text_model(ex, st, g, extra)
+                if st.panic or st.bound_hit:
+                    ob.total += 1
+                    ob.failures.append(dict(kind="panic" if st.panic else "bound", where="sys::" + name, fn=name, cex=cf([]),
+                                            desc="C12: sys::%s panics/loops: %s" % (name, st.panic or st.bound_hit)))
+                    return
+                res = result_text(st.retval)
+                for desc, f in oracle(ex, st, texts, res):
+                    ob.prove(ex, st, desc + " %s" % (shape,), f, cf) or ob.failures[-1].update(where="sys::" + name, fn=name)
+                if len(ob.samples) < 4 and shape[0] == nmax:
+                    m = cf([])
+                    if m:
+                        ob.samples.append(dict(function=name, args=m))
+
+            st0 = ex.start(fn, [BoxRef(M.SStr(t)) for t in texts])
+            st0.pc = cons
+            ex.explore(st0, on_path)
+    seen = set()
+    for f in ob.failures:
+        if f["kind"] == "bound" or f["cex"] is None:
+            unit["status"], unit["why"] = "inconclusive", f["desc"]
+            continue
+        key = (f["fn"], f["kind"], re.sub(r" \(\d+(, \d+)?,?\)$", "", f["desc"]))
+        if key in seen:
+            continue
+        seen.add(key)
+        args = [f["cex"]["a%d" % i] for i in range(len(f["cex"]))]
+        name = f["fn"]
+        rexpr = TEXT_FUNCS[name][3].format(*[rs_str(a) for a in args])
+        exp = py_text_expected(name, args)
+        src = '''use rivia::prelude::*;
+#[test]
+fn replay_text_func() {
+    // %s
+    let got: Option<String> = %s;
+    let want: Option<String> = %s;
+    let same = match (&got, &want) {
+        (Some(a), Some(b)) => %s,
+        (None, None) => true,
+        _ => false,
+    };
+    assert!(same, "C15: sys::%s{:?}: got {:?}, specification says {:?}", %s, got, want);
+}
+''' % (f["desc"], rexpr, "None" if exp is None else "Some(%s.to_string())" % rs_str(exp),
+            "a == b" if name in ("base", "last", "first", "ext") else (
+                "PathBuf::from(a).components().filter(|x| *x != Component::CurDir).eq(PathBuf::from(b).components()) && (a.len() <= 1 || !a.ends_with('/'))"
+                if name == "mash" else "PathBuf::from(a).components().eq(PathBuf::from(b).components())"),
+            name, "(%s)" % ", ".join(rs_str(a) for a in args))
+        r = native_test(src, ctx.logdir, "%s_%d" % (tag, len(seen)))
+        reproduced = r["ran"] and r["failed"] > 0
+        rec = dict(kind=f["kind"], desc='"%s" args=%r' % (f["desc"], args), where=f.get("where", ""), reproduced=reproduced,
+                   replay_outcome=r["out"][-400:])
+        if reproduced:
+            rec["replay"] = save_replay(prop, tag, src, f["desc"], dict(failed=r["failed"]))
+        unit["failures"].append(rec)
+        unit["status"] = "violation"
+    return finish(unit, ex, solver, ob, t0, dict(models_used="text-level std::path model (lib/mirsym/textpath.py)"))
+
+
+def py_text_expected(name, args):
+    """concrete reference (from the statement) used by the replay; result as text (None = error)"""
+    c = py_comps(args[0])
+    join = lambda cs: ("/" + "/".join(cs[1:]) if cs and cs[0] == "/" else "/".join(cs))
+    if name == "dir":
+        return None if (not c or c[-1] == "/") else join(c[:-1])
+    if name in ("base", "last"):
+        return c[-1] if c else None
+    if name == "first":
+        return c[0] if c else None
+    if name == "trim_first":
+        return join(c[1:])
+    if name == "trim_last":
+        return join(c[:-1])
+    if name == "mash":
+        p = args[1].lstrip("/")
+        return join([x for x in c + py_comps(p) if x != "."])
+    if name == "ext":
+        if c and c[-1] not in ("/", ".", ".."):
+            nm = c[-1]
+            i = nm.rfind(".")
+            if i > 0:
+                return nm[i + 1:]
+        return None
+
+
+@job("c15_components_text", ["C15", "C12"], "quick",
+     functions=["sys::{dir,base,last,first,trim_first,trim_last,ext} (real MIR)", "IteratorExt::{drop,first_result,last_result} at Components (real MIR, inlined)",
+                "ToStringExt for Component/OsStr (real MIR, inlined)"],
+     bounds="every path text of 0..=5 Unicode scalars")
+def c15_components(ctx, prop):
+    return run_text_funcs(ctx, prop, ["dir", "base", "last", "first", "trim_first", "trim_last", "ext"], 5, 0, "c15_components_text")
+
+
+@job("c15_mash_text", ["C15", "C12"], "quick",
+     functions=["sys::mash (real MIR)", "sys::trim_prefix (real MIR, inlined)"],
+     bounds="every (dir, path) pair of texts with |dir| <= 3 and |path| <= 4 Unicode scalars")
+def c15_mash(ctx, prop):
+    return run_text_funcs(ctx, prop, ["mash"], 3, 4, "c15_mash_text")
+
+
+def run_relative_text(ctx, prop, nmax, tag="c16_relative_text", alphabet="/ab."):
+    """relative(p, b) on text: p, b range over all *clean absolute* texts of <= nmax chars over the
+    alphabet (cleanliness is imposed through the path condition: text == GoClean(text), starts with '/')."""
+    t0 = time.time()
+    solver = ctx.solver(tag)
+    ex = text_executor(ctx, solver, extra_inline=COMPONENT_INLINE, max_block_visits=6 * nmax + 24)
+    fn = ctx.mir.get(r"^fn (sys::fs::path::)?relative\(_1: T, _2: U\)")
+    ob = Obl()
+    unit = dict(status="pass", failures=[])
+    for lp in range(1, nmax + 1):
+        for lb in range(1, nmax + 1):
+            pc_, c1 = sym_text(solver, "rt_%d_%d_p" % (lp, lb), lp)
+            bc_, c2 = sym_text(solver, "rt_%d_%d_b" % (lp, lb), lb)
+            cons = ["(or %s)" % " ".join("(= %s (_ bv%d 32))" % (c.v, ord(k)) for k in alphabet) for c in pc_ + bc_]
+            g = {"p": pc_, "b": bc_}
+
+            def on_path(st, pc_=pc_, bc_=bc_, g=g, lp=lp, lb=lb):
+                cf = lambda extra: text_model(ex, st, g, extra)
+                if st.meta.get("stage") == 0:
+                    # precondition of the statement: clean absolute paths, decided before the code runs
+                    for t in (pc_, bc_):
+                        if not ex.decide(st, TP.is_ch(t[0], TP.SLASH)):
+                            return
+                        if not ex.decide(st, text_eq(TP.go_clean_text(ex, st, t), t)):
+                            return
+                    st1 = ex.start(fn, [BoxRef(M.SStr(pc_)), BoxRef(M.SStr(bc_))])
+                    st1.pc = list(st.pc)
+                    st1.meta = dict(stage=1)
+                    return [st1]
+                if st.panic or st.bound_hit:
+                    ob.total += 1
+                    ob.failures.append(dict(kind="panic" if st.panic else "bound", where="sys::relative", cex=cf([]),
+                                            desc="C12: sys::relative panics/loops: %s" % (st.panic or st.bound_hit)))
+                    return
+                kind, r = result_text(st.retval)
+                if kind != "ok":
+                    ob.total += 1
+                    ob.failures.append(dict(kind="functional", where="sys::relative", cex=cf([]), desc="C16: relative returned Err"))
+                    return
+                buf = TP.PathBufT(bc_)
+                TP.push_text(ex, st, buf, r)
+                ob.prove(ex, st, "C16: clean(base.join(relative(p, b))) == p as text (|p|=%d,|b|=%d)" % (lp, lb),
+                         text_eq(TP.go_clean_text(ex, st, buf.chars), pc_), cf)
+                same = ex.decide(st, text_eq(pc_, bc_)) if lp == lb else False
+                if not same:
+                    P, Bc, R = comps_of(ex, st, pc_), comps_of(ex, st, bc_), comps_of(ex, st, r)
+                    common = 0
+                    while common < min(len(P), len(Bc)) and ex.decide(st, TP.tcomp_eq(P[common], Bc[common])):
+                        common += 1
+                    m = len(Bc) - common
+                    shape = len(R) >= m and all(c.kind == PARENT for c in R[:m]) and all(c.kind == NORMAL for c in R[m:])
+                    ob.prove(ex, st, "C16: result is '..' x (components of base below the common prefix) followed only by normal components",
+                             B(shape), cf)
+                if len(ob.samples) < 3 and lp == nmax and lb == nmax:
+                    mm = cf([])
+                    if mm:
+                        ob.samples.append(dict(obligation="clean(b.join(relative(p,b))) == p", p=mm["p"], b=mm["b"]))
+
+            from .mirsym.engine import State
+            st0 = State()
+            st0.done = True
+            st0.meta = dict(stage=0)
+            st0.pc = cons
+            ex.explore(st0, on_path)
+    seen = set()
+    for f in ob.failures:
+        if f["kind"] == "bound" or f["cex"] is None:
+            unit["status"], unit["why"] = "inconclusive", f["desc"]
+            continue
+        key = (f["cex"]["p"], f["cex"]["b"])
+        if key in seen or len(seen) >= 3:
+            continue
+        seen.add(key)
+        p, b = key
+        src = '''use rivia::prelude::*;
+#[test]
+fn replay_relative_text() {
+    // %s
+    let (p, b) = (PathBuf::from(%s), PathBuf::from(%s));
+    let r = sys::relative(&p, &b).expect("C16: relative failed");
+    assert_eq!(sys::clean(b.join(&r)), p, "C16: cleaning base joined with relative(path, base) does not yield path; got {:?}", r);
+    if p != b {
+        assert!(r.is_relative(), "C16: result {:?} is not relative", r);
+        let comps: Vec<_> = r.components().collect();
+        let ups = comps.iter().take_while(|c| **c == Component::ParentDir).count();
+        assert!(comps[ups..].iter().all(|c| matches!(c, Component::Normal(_))), "C16: result {:?} is not ..* followed by normal components", r);
+        let common = p.components().zip(b.components()).take_while(|(x, y)| x == y).count();
+        assert_eq!(ups, b.components().count() - common, "C16: wrong number of .. in {:?}", r);
+    }
+}
+''' % (f["desc"], rs_str(p), rs_str(b))
+        r = native_test(src, ctx.logdir, "%s_%d" % (tag, len(seen)))
+        reproduced = r["ran"] and r["failed"] > 0
+        rec = dict(kind=f["kind"], desc='"%s" path=%r base=%r' % (f["desc"], p, b), where="sys::relative", reproduced=reproduced,
+                   replay_outcome=r["out"][-400:])
+        if reproduced:
+            rec["replay"] = save_replay(prop, tag, src, f["desc"], dict(failed=r["failed"]))
+        unit["failures"].append(rec)
+        unit["status"] = "violation"
+    return finish(unit, ex, solver, ob, t0, dict(models_used="text-level std::path model (lib/mirsym/textpath.py)"))
+
+
+@job("c16_relative_text_n5", ["C16", "C12"], "quick",
+     functions=["sys::fs::path::relative (real MIR) on text"],
+     bounds="all ordered pairs of clean absolute path texts of <= 5 chars over the alphabet {'/','a','b','.'} (names such as 'a', 'ab', 'a.', '..a' included)")
+def c16_text_quick(ctx, prop):
+    return run_relative_text(ctx, prop, 5)
+
+
+@job("c16_relative_text_n7", ["C16", "C12"], "thorough",
+     functions=["sys::fs::path::relative (real MIR) on text"],
+     bounds="all ordered pairs of clean absolute path texts of <= 7 chars over {'/','a','b','.'}")
+def c16_text_thorough(ctx, prop):
+    return run_relative_text(ctx, prop, 7, tag="c16_relative_text_n7")
+
+
+@job("c14_clean_text_n7", ["C14", "C12"], "quick",
+     functions=["sys::fs::path::clean (real MIR) on text"],
+     bounds="every string of 6..=7 Unicode scalars; string-level equality with Go's path.Clean")
+def c14_text_quick7(ctx, prop):
+    return run_clean_text(ctx, prop, 7, nmin=6, tag="c14_clean_text_n7")
+
+
+def _mk_clean_text(n):
+    @job("c14_clean_text_len%d" % n, ["C14", "C12"], "thorough", functions=["sys::fs::path::clean (real MIR) on text"],
+         bounds="every string of exactly %d Unicode scalars; string-level equality with Go's path.Clean" % n)
+    def f(ctx, prop):
+        return run_clean_text(ctx, prop, n, nmin=n, tag="c14_clean_text_len%d" % n)
+    return f
+
+
+for _n in (8, 9, 10):
+    _mk_clean_text(_n)
